@@ -34,12 +34,13 @@ type Ctx struct {
 	hmCache map[string]string
 	nhavoc  int
 	shl1    map[string]string // terms of the form 1<<s (int mode) -> s
+	heapKind map[string]string // heap name -> "ref" | "slice" | "refarr" (what its cells hold)
 }
 
 func newCtx(eng *Engine, mode string) *Ctx {
 	c := &Ctx{eng: eng, mode: mode, declSet: map[string]bool{}, structs: map[string]*types.Struct{},
 		notes: map[string]bool{}, inlined: map[string]bool{}, used: map[string]bool{}, pureDone: map[string]bool{}, strConsts: map[string]string{},
-		heapSorts: map[string]string{}, hmerge: map[int][]hmEntry{}, hmCache: map[string]string{}}
+		heapSorts: map[string]string{}, hmerge: map[int][]hmEntry{}, hmCache: map[string]string{}, heapKind: map[string]string{}}
 	idx := c.idxSort()
 	b := c.byteSort()
 	c.decl("Str", fmt.Sprintf("(declare-datatypes ((Str 0)) (((mkstr (sarr (Array %s %s)) (soff %s) (slen %s) (sown Int)))))", idx, b, idx, idx))
